@@ -172,6 +172,14 @@ func validUnit(r *rand.Rand) [][]byte {
 }
 
 func pickCfg(r *rand.Rand) cfg {
+	c := pickCfg0(r)
+	// frame reuse (SetReuseFrames) must not change what is read (after seeded change C19-M: a recycled
+	// MetaHeadersFrame kept the Truncated flag of an earlier block)
+	c.Reuse = r.Intn(4) == 0
+	return c
+}
+
+func pickCfg0(r *rand.Rand) cfg {
 	switch r.Intn(8) {
 	case 0, 1, 2:
 		return cfg{Meta: true}
@@ -601,7 +609,7 @@ func genHdr(r *rand.Rand, mode string) []*rtcase {
 		switch mode {
 		case "valid":
 			tc.Blocks = lists
-			tc.Cfgs = []cfg{{}, {Meta: true}}
+			tc.Cfgs = []cfg{{}, {Meta: true}, {Meta: true, Reuse: true}}
 		case "invalid":
 			tc.Cfgs = []cfg{{Meta: true}}
 			if r.Intn(4) == 0 {
@@ -616,7 +624,7 @@ func genHdr(r *rand.Rand, mode string) []*rtcase {
 			if ml == 0 {
 				ml = 1
 			}
-			tc.Cfgs = []cfg{{Meta: true, MaxList: ml}}
+			tc.Cfgs = []cfg{{Meta: true, MaxList: ml}, {Meta: true, MaxList: ml, Reuse: true}}
 		}
 		return tc
 	}
